@@ -14,7 +14,7 @@ LEVEL_TEXT = ("Static structural proof of necessary conditions: (R7.1) every nor
               "computed from the single adjustment (1 + header) computed in validate; (R7.3) in the closure of "
               "SpreadsheetValidator.validate no possibly-None conversion result is used arithmetically or "
               "dereferenced unguarded. Equality with string-level validation and shuffle invariance are NOT decided.")
-LEVEL_EXTRA = "Added after the seeded evaluation: (R7.4) the column-structure checks see the caller's table, not the onset-sorted copy; (R7.5) the onset pass maps back to file rows through original_index; (R7.6) a row is excluded from the row-level and temporal checks only under an error-severity test. (R7.7) no issue list is discarded inside the table-validation modules; (R7.8) a column assigned during assembly carries the frame's own index; (R7.9) index labels are never used as positions (or vice versa) in the validators and df_util, and the per-row mask is computed over the file's own rows. (R7.10) float()/int() of table cell text only inside a ValueError handler."
+LEVEL_EXTRA = "Added after the seeded evaluation: (R7.4) the column-structure checks see the caller's table, not the onset-sorted copy; (R7.5) the onset pass maps back to file rows through original_index; (R7.6) a row is excluded from the row-level and temporal checks only under an error-severity test. (R7.7) no issue list is discarded inside the table-validation modules; (R7.8) a column assigned during assembly carries the frame's own index; (R7.9) index labels are never used as positions (or vice versa) in the validators and df_util, and the per-row mask is computed over the file's own rows. (R7.10) float()/int() of table cell text only inside a ValueError handler. (R7.11) push_error_context replaces a context value only when it is None, never on a truth test."
 
 FUNCS = ["validate", "_run_checks", "_run_onset_checks", "_validate_column_structure"]
 
@@ -263,6 +263,37 @@ def run(ctx):
     ctx.floor("R7.3", "functions in closure", len(scope), 60)
     n = check_nullable(ctx, "R7.3", scope, named_sources(ctx), "frozen nullable table")
     ctx.floor("R7.3", "nullable sources met", n, 5)
+
+    # ---------------- R7.11: a context value that is given is recorded as given (row 0, column 0, key '')
+    ctx.rule("R7.11", "push_error_context replaces the context value only when it is None, never on a truth test")
+    pec = prog.find_class("ErrorHandler").methods.get("push_error_context")
+    if pec is None or len(pec.params()) < 3:
+        raise AnalysisError("anchor ErrorHandler.push_error_context(context_type, context) vanished")
+    ctx.saw(pec)
+    cpar = pec.params()[2]
+    v11 = view(ctx, pec)
+    n_none = 0
+    for c in v11.conds(lambda t: mentions(t, cpar)):
+        t = c.ast
+        strict = [x for x in ast.walk(t) if isinstance(x, ast.Compare) and isinstance(x.left, ast.Name) and x.left.id == cpar
+                  and len(x.ops) == 1 and isinstance(x.ops[0], (ast.Is, ast.IsNot, ast.Eq, ast.NotEq))
+                  and isinstance(x.comparators[0], ast.Constant) and x.comparators[0].value is None]
+        truthy = []
+        stack = [t]
+        while stack:
+            x = stack.pop()
+            if isinstance(x, ast.BoolOp):
+                stack.extend(x.values)
+            elif isinstance(x, ast.UnaryOp) and isinstance(x.op, ast.Not):
+                stack.append(x.operand)
+            elif isinstance(x, ast.Name) and x.id == cpar:
+                truthy.append(x)
+        n_none += len(strict) + len(truthy)
+        ctx.check(not truthy, "R7.11", pec.qualname, t, loc(pec, t),
+                  "the context value is truth-tested: row 0, column 0 of a sheet without a header and the key '' are given values "
+                  "but count as missing, so they are replaced by the default and the issue is labelled with the wrong row/column",
+                  desc="context tested against None only")
+    ctx.floor("R7.11", "tests of the context value in push_error_context", n_none, 1)
 
 
 def _adj_locals(validate):
